@@ -311,6 +311,21 @@ fn c18_layout(out: &[u8], entries: &[TarEntry], want: &Want, back: Option<&Game>
 	if got != names {
 		return Err(format!("entries {:?} but a game with end: {}, gecko codes: {}, {} frames must give {:?}", got, want.end.is_some(), want.gecko.is_some(), want.frames, names));
 	}
+	// "zeroed GNU headers": apart from name, mode, size, checksum and the format magic, a header carries nothing - in particular
+	// no modification time, owner or host data - so that the bytes depend on the game alone (written twice = identical bytes,
+	// whenever and wherever)
+	let blank = tar::Header::new_gnu();
+	let blank = blank.as_bytes();
+	for e in entries {
+		for (what, lo, hi) in [("uid/gid", 108usize, 124usize), ("mtime", 136, 148), ("link name", 157, 257), ("owner names / device numbers / GNU extension fields", 265, 512)] {
+			if e.header[lo..hi] != blank[lo..hi] {
+				return Err(format!("header of {} carries {} ({:02x?}), a zeroed GNU header has {:02x?} there: the archive bytes would depend on more than the game", e.name, what, &e.header[lo..hi.min(lo + 12)], &blank[lo..hi.min(lo + 12)]));
+			}
+		}
+		if &e.header[100..108] != b"0000644\0" {
+			return Err(format!("header of {} has mode field {:02x?}, not 0000644", e.name, &e.header[100..108]));
+		}
+	}
 	if tar_build(entries) != out {
 		return Err("(oracle self-check) rebuilding the archive from its entries does not reproduce it: non-zero padding?".to_string());
 	}
